@@ -294,6 +294,30 @@ def check_cli(system, shapes_n):
                     bad('replay-mismatch', 'tree %s: %s' % (model.mt_str(m.root, m.toks), seq))
             except ReplayError as e:
                 bad('replay-stuck', 'tree %s: %s (%s)' % (model.mt_str(m.root, m.toks), seq, e))
+    # size probes beyond the bound: files of 999, 1000 and 1001 sentences (one line per tree, in file order)
+    for total in (999, 1000, 1001):
+        big = [model.MT(i + 1, mts[i % len(mts)].toks, mts[i % len(mts)].root) for i in range(total)]
+        with open(src, 'w', encoding='utf-8') as f:
+            f.write(codecs.encode_export(big))
+        dest = os.path.join(scratch(), 'c10.%s.big.trans' % system)
+        st, so, se, exc = cli.run(['transitions', src, dest, system, '--transform', 'negra_mark_heads'])
+        if st != 0:
+            bad('cli-failed', '%d sentences: exit status %r %s' % (total, st, cli.describe(exc)))
+            continue
+        try:
+            lines = codecs.read_out(dest).split('\n')
+        except codecs.DecodeError as e:
+            bad('output-encoding', str(e))
+            continue
+        os.unlink(dest)
+        if lines[-1:] != [''] or len(lines) - 1 != total:
+            bad('line-count', '%d lines for a file of %d trees' % (len(lines) - 1, total))
+            continue
+        for i, ln in enumerate(lines[:-1]):
+            want = ' '.join(tk['word'] for tk in big[i].toks)
+            if ln.split(' ||| ')[0] != want:
+                bad('sentence', 'line %d of %d has %r, expected %r' % (i + 1, total, ln.split(' ||| ')[0], want))
+                break
     # writer called directly with a stream of (sentence, transitions) pairs
     os.unlink(src)
     os.unlink(gzsrc)
